@@ -193,8 +193,13 @@ class ConvexSpheropolygon(Shape2D):
         For more general information about this calculation, see
         `Shape.distance_to_surface`.
         """
+        # Bring the angles into [0, 2 pi) (also handles an np.asarray for us).
+        angles = np.mod(angles, 2 * np.pi)
         num_verts = self.num_vertices
         verts = self._polygon.vertices[:, :2] - self._polygon.centroid[:2]
+        if self._polygon.normal[2] < 0:
+            # The angular ranges below assume counterclockwise order as seen from +z.
+            verts = verts[::-1]
 
         # compute intermediates
         v1 = np.roll(verts, 1, axis=0)
@@ -228,8 +233,13 @@ class ConvexSpheropolygon(Shape2D):
         angle_ranges[:, 1] = np.arctan2(pt3[:, 1], pt3[:, 0])
         angle_ranges[angle_ranges < 0] += 2 * np.pi
 
-        # compute shape kernel for the new set of vertices
-        kernel = ConvexPolygon(new_verts).distance_to_surface(angles)
+        # compute shape kernel for the new set of vertices: the distance from the centroid
+        # of the core polygon (the origin here) to the offset edge lines along each ray
+        directions = np.stack((np.cos(angles), np.sin(angles)), axis=-1)
+        offsets = np.sum(v32n * v2, axis=1) + self.radius
+        cosines = directions @ v32n.T
+        with np.errstate(divide="ignore", invalid="ignore"):
+            kernel = np.where(cosines > 0, offsets / cosines, np.inf).min(axis=1)
 
         # get the shape kernel for this shape by adjusting indices of shape kernel
         # for the new vertices
